@@ -8,7 +8,7 @@ HERE = os.path.dirname(os.path.abspath(__file__))
 SPEC = os.path.join(HERE, "..", "spec")
 props = json.load(open(os.path.join(SPEC, "properties.json")))
 pins = json.load(open(os.path.join(SPEC, "pins_uhppote.json")))
-OPS = sorted(k[:-len("#contract")] for k in pins if k.startswith("uhppote.(*uhppote).") and k.endswith("#contract") and "debugf" not in k and "$" not in k)
+OPS = sorted(k[:-len("#contract")] for k in pins if k.startswith("uhppote.(*uhppote).") and k.endswith("#contract") and "ensures wire:" in pins[k] and "$" not in k)
 OPRE = r"^uhppote\.\(\*uhppote\)\.[A-Z]\w*#"
 
 WIRE_REPLAY = [
@@ -88,7 +88,6 @@ new.append(entry("C04",
         "messages.UnmarshalResponse": "as UnmarshalRequest",
         "uhppote.(*uhppote).broadcast": INLINED_ONLY + " (inlined into GetDevices)",
         "uhppote.(*uhppote).GetDevices": "filter-map loop over the discovery replies needs the C11 contracts (not built): VC generation explodes without an invariant",
-        "uhppote.(*uhppote).DeviceList": "range over a map: VC generation explodes (no iterator model yet)",
         "uhppote.(*uhppote).ListenAddrList": "engine limitation (address of a local array element inside an unrolled loop)",
         "uhppote.NewUHPPOTE": "loop over the caller's device list needs an invariant (C17 contracts, not built)",
         "uhppote.(*uhppote).tcpSendTo": "helper verified inlined into sendto$1, which establishes driver != nil and len(request) == 64",
@@ -150,8 +149,12 @@ new.append(entry("C13",
 
 LAYOUTS = ["Ints", "Last", "Addrs", "Types", "Dates", "Pointers", "Fixed", "Outer"]
 new.append(entry("C18", level="other",
-    functions=["encoding/UTO311-L0x.lemmaLayout" + n for n in LAYOUTS] + ["encoding/UTO311-L0x.lemmaDecode" + n for n in ("Fixed", "Outer", "Addrs")],
-    scope=[r"^encoding/UTO311-L0x\.lemma"],
+    functions=["encoding/UTO311-L0x.lemmaLayout" + n for n in LAYOUTS] + ["encoding/UTO311-L0x.lemmaDecode" + n for n in ("Fixed", "Outer", "Addrs")] +
+              ["types.(%s).MarshalUT0311L0x" % t for t in ("Date", "DateTime", "SystemDate", "SystemTime", "HHmm", "PIN", "SerialNumber", "Version", "MacAddress")] +
+              ["types.(*%s).UnmarshalUT0311L0x" % t for t in ("Date", "DateTime", "SystemDate", "SystemTime", "HHmm", "PIN", "SerialNumber", "Version", "MacAddress")] +
+              ["encoding/bcd.Encode", "encoding/bcd.Decode"],
+    scope=[r"^encoding/UTO311-L0x\.lemma", r"^types\.\(\*?\w+\)\.(Unm|M)arshalUT0311L0x#", r"^encoding/bcd\.(En|De)code#"],
+    scope_exclude=[r"^types\.\(\*(Date|SystemDate)\)\.UnmarshalUT0311L0x#ensures:civil$"],
     pinned_file="pins_codec.json", pinned_labels=["contract"],
     replay=[{"match": "Addrs", "driver": "codec_layouts", "pkg": "encoding/UTO311-L0x", "case": "mac"},
             {"match": "Fixed", "driver": "codec_layouts", "pkg": "encoding/UTO311-L0x", "case": "fixed"},
@@ -165,13 +168,13 @@ new.append(entry("C18", level="other",
 
 SLICE_TYPES = ["GetDeviceResponse", "SetAddressRequest"]
 new.append(entry("C17",
-    functions=OPS + ["uhppote.(Device).Clone", "types.(*Card).Clone", "uhppote.NewUHPPOTE", "types.(*MacAddress).UnmarshalUT0311L0x",
+    functions=OPS + ["uhppote.(Device).Clone", "types.(*Card).Clone", "uhppote.NewUHPPOTE", "uhppote.(*uhppote).DeviceList", "types.(*MacAddress).UnmarshalUT0311L0x",
                      "encoding/UTO311-L0x.lemmaDecodeAddrs", "encoding/UTO311-L0x.lemmaLayoutAddrs"] + ["messages.lemmaDecode" + t for t in SLICE_TYPES],
-    scope=[OPRE + r"frame[@:]", r"^uhppote\.\(Device\)\.Clone#", r"^types\.\(\*Card\)\.Clone#", r"^uhppote\.NewUHPPOTE#", r"^types\.\(\*MacAddress\)\.UnmarshalUT0311L0x#ensures",
+    scope=[OPRE + r"frame[@:]", r"^uhppote\.\(Device\)\.Clone#", r"^types\.\(\*Card\)\.Clone#", r"^uhppote\.NewUHPPOTE#", r"^uhppote\.\(\*uhppote\)\.DeviceList#", r"^types\.\(\*MacAddress\)\.UnmarshalUT0311L0x#ensures",
            r"#ensures:noalias$", OPRE + r"ensures:result$"],
     pinned_file="pins_uhppote.json", pinned_labels=["contract"],
     assumptions=COMMON_ASSUME + ["heap model with allocation freshness: a slice/map allocated during a call has a reference above every reference that existed at entry; references stored in the initial heap point to memory that existed at entry"],
-    not_decided=["DeviceList (range over a map: no iterator model in the engine)", "the routing function reads only the client's own map: follows from NewUHPPOTE's `own`/`client` clauses and the frame obligations, not stated as a separate lemma"],
+    not_decided=["DeviceList: proved to return a fresh map; that its contents equal the configuration is not stated", "the routing function reads only the client's own map: follows from NewUHPPOTE's `own`/`client` clauses and the frame obligations, not stated as a separate lemma"],
     explanation="Frame obligations of every API operation (no write to memory that existed at entry: card.Doors, profile maps, task maps, readers, IP slices), Device.Clone / Card.Clone return equal values whose slices/maps are fresh, NewUHPPOTE stores a clone of every device in a fresh map of the client, and decoded slices (IPv4, MAC) share no memory with the message buffer (noalias clauses of the decode lemmas; result maps of GetCard*/GetTimeProfile are fresh)."))
 
 
